@@ -176,3 +176,61 @@ def compare_initial(ctx, m, desc):
     if mm.shape != y0.shape or not np.array_equal(mm, y0):
         ctx.fail("correspondence", f"_assemble_initial_conditions differs from Adv.initial for {desc}", inp=desc)
     return y0
+
+
+def resonant_model(rng, **fixed_opts):
+    """model whose (space-charge corrected, when cross sections are recomputed) beam energy sits on a DR resonance of its first
+    target; DR enabled. Without this the DR cross sections are exactly 0 for almost every random energy."""
+    import ebisim
+    from ebisim.simulation import AdvancedModel, Device
+    from ebisim.simulation._result import Rate
+    fixed = dict(DR=True, RADIAL_DYNAMICS=False); fixed.update(fixed_opts)
+    z = int(rng.choice([8, 10, 11, 18, 19, 20, 26]))
+    el = ebisim.Element.get(z)
+    er = float(el.dr_e_res[int(rng.integers(0, el.dr_e_res.size))])
+    kw = gens.device_kwargs(rng, n_grid=60)
+    kw["e_kin"] = er
+    if kw["current"] / er ** 1.5 > 1.5e-6: kw["current"] = 1.5e-6 * er ** 1.5
+    if rng.random() < 0.7: kw["fwhm"] = float(rng.uniform(8, 40))
+    opts, okw = gens.make_options(rng, **fixed)
+    dev = Device.get(**kw)
+    tg, tdesc = gens.make_targets(rng, dev, k=int(rng.integers(1, 4)), zmax=30)
+    nl = float(10 ** rng.uniform(4, 8))
+    tdesc = [("ions", z, nl, float(rng.uniform(5, 50)), int(rng.integers(max(1, z - 9), z)), True)] + tdesc
+    pos = int(rng.integers(0, len(tdesc)))
+    tdesc = tdesc[1:pos + 1] + tdesc[:1] + tdesc[pos + 1:]
+    bg, bdesc = gens.make_gases(rng)
+    desc = {"device": kw, "targets": tdesc, "gases": bdesc, "options": {k: v for k, v in okw.items() if isinstance(v, bool)}}
+    m = rebuild(desc)
+    if okw["RECOMPUTE_CROSS_SECTIONS"]:
+        y = _assemble(m)
+        _, ex = impl_rhs(m, y)
+        shift = float(ex[Rate.E_KIN_MEAN][0]) - kw["e_kin"]
+        kw["e_kin"] = er - shift
+        m = rebuild(desc)
+    return m, desc
+
+
+def _assemble(m):
+    from ebisim.simulation._advanced import _assemble_initial_conditions
+    import logging
+    logging.getLogger("ebisim").setLevel(logging.ERROR)
+    return _assemble_initial_conditions(m)
+
+
+def compensated_state(rng, m, frac=None):
+    """state whose ion cloud compensates a sizeable fraction of the beam's space charge (hot enough for the
+    Boltzmann-Poisson iteration to converge): the regime where trap depths shrink or change sign"""
+    from ebisim.physconst import Q_E, M_E
+    d = m.device
+    nq = m.nq
+    frac = float(rng.uniform(0.1, 0.6)) if frac is None else frac
+    ne_l = d.current / (Q_E * np.sqrt(2 * Q_E * d.e_kin / M_E))
+    n = np.full(nq, 1e-7)
+    ions = np.nonzero(np.asarray(m.q) >= 1)[0]
+    pick = rng.choice(ions, size=min(len(ions), int(rng.integers(1, 5))), replace=False)
+    w = rng.uniform(0.2, 1, pick.size)
+    for k, wk in zip(pick, w / w.sum()):
+        n[k] = frac * ne_l * wk / m.q[k]
+    kT = np.maximum(10 ** rng.uniform(0.5, 2.5, nq), 3.0 * np.maximum(m.q, 1))
+    return np.concatenate([n, kT])
